@@ -6,6 +6,7 @@
 package link
 
 import (
+	"bufio"
 	"errors"
 	"io"
 
@@ -274,4 +275,73 @@ func (w *Writer) Write(p []byte) (int, error) {
 	w.Buf = append(w.Buf, p...)
 	w.c.EvBytes("write", p)
 	return len(p), nil
+}
+
+// ---------------------------------------------------------------------------
+// Wrappers: the same stream and the same decisions, seen through other dynamic
+// types. A library that type-switches on its reader or writer (a fast path for
+// *bufio.Reader, io.ByteReader, io.StringWriter, io.ReaderFrom ...) must behave
+// the same on every one of them.
+
+// ByteReader offers ReadByte in addition to Read.
+type ByteReader struct{ *Reader }
+
+func (b ByteReader) ReadByte() (byte, error) {
+	var one [1]byte
+	for {
+		n, err := b.Reader.Read(one[:])
+		if n == 1 {
+			return one[0], nil // an error delivered with the byte is reported by the next call
+		}
+		if err != nil {
+			return 0, err
+		}
+	}
+}
+
+// WrapReader returns the reader under a tape-chosen dynamic type:
+// 0 itself, 1 bufio.Reader (small), 2 bufio.Reader (large), 3 with ReadByte,
+// 4 hidden behind a plain io.Reader struct.
+func WrapReader(c *sim.Ctx, r *Reader) (io.Reader, string) {
+	switch c.T.Pick(6, 1, 1, 1, 1) {
+	case 1:
+		return bufio.NewReaderSize(r, 16), "bufio.Reader(16)"
+	case 2:
+		return bufio.NewReaderSize(r, 65536), "bufio.Reader(65536)"
+	case 3:
+		return ByteReader{r}, "Reader+ReadByte"
+	case 4:
+		return struct{ io.Reader }{r}, "anonymous io.Reader"
+	}
+	return r, "link.Reader"
+}
+
+// FancyWriter offers WriteString, WriteByte and ReadFrom in addition to Write;
+// all of them go through Write, so faults apply alike.
+type FancyWriter struct{ *Writer }
+
+func (f FancyWriter) WriteString(s string) (int, error) { return f.Writer.Write([]byte(s)) }
+func (f FancyWriter) WriteByte(b byte) error {
+	_, err := f.Writer.Write([]byte{b})
+	return err
+}
+func (f FancyWriter) ReadFrom(r io.Reader) (int64, error) {
+	var total int64
+	buf := make([]byte, 4096)
+	for {
+		n, err := r.Read(buf)
+		if n > 0 {
+			m, werr := f.Writer.Write(buf[:n])
+			total += int64(m)
+			if werr != nil {
+				return total, werr
+			}
+		}
+		if err == io.EOF {
+			return total, nil
+		}
+		if err != nil {
+			return total, err
+		}
+	}
 }
